@@ -323,6 +323,57 @@ def run(chk):
     except ParseError as ex:
         prob = {"error": str(ex)[:120]}
     chk.ob("C02.D.declared-ports", "consistent port list accepted", prob is None, file=FILE, func="_VerilogCircuitGraphTransformer.module", fact=prob or {}, expect="inputs/outputs == declared ports")
+    # ---- O: any ordering of declarations, instances and assigns -------------
+    decls = ["input a, b;", "input ck;", "output o, p;", "output q;", "wire w, v;", "wire t;"]
+    stmts = ["nand g0 (w, a, b);", "assign o = w ^ b;", "assign p = w;", "dff u0 (.clk(ck), .d(o), .q(v), .qn());", "or g1 (q, v, 1'b0, t);", "not g2 (t, a);"]
+    ports = ["a", "b", "ck", "o", "p", "q"]
+    ffo = RefBlackBox("dff", ["clk", "d"], ["q", "qn"])
+
+    def order_text(items):
+        return "module m (" + ", ".join(ports) + ");\n" + "".join(f"  {x}\n" for x in items) + "endmodule\n"
+
+    def describe(c):
+        fr = sorted(free_nodes(c))
+        rows = []
+        for a_ in assignments(fr):
+            v = simulate(c, a_)
+            rows.append(tuple(v[n] for n in ("o", "p", "q", "w", "t", "u0.d", "u0.clk")))
+        return {"inputs": sorted(c.inputs()), "outputs": sorted(c.outputs()), "free": fr, "instances": sorted(c.blackboxes),
+                "types": {n: c.type(n) for n in ("a", "b", "ck", "o", "p", "q", "w", "v", "t")}, "rows": rows}
+
+    orders = {
+        "declarations first": decls + stmts,
+        "declarations last": stmts + decls,
+        "everything reversed": (decls + stmts)[::-1],
+        "interleaved": [decls[0], stmts[1], decls[2], stmts[0], stmts[3], decls[4], decls[1], stmts[4], decls[3], stmts[2], stmts[5], decls[5]],
+        "outputs declared after their drivers": [decls[0], decls[1], decls[4], decls[5]] + stmts + [decls[2], decls[3]],
+        "uses before definitions": decls + stmts[::-1],
+    }
+    ref_desc = None
+    for oname, items in orders.items():
+        n_parse += 1
+        try:
+            d_ = describe(full_parse(P, order_text(items), [ffo]))
+            if ref_desc is None:
+                ref_desc = d_
+                want_rows = []
+                for a_ in assignments(d_["free"]):
+                    w_ = not (a_["a"] and a_["b"])
+                    o_ = w_ != a_["b"]
+                    t_ = not a_["a"]
+                    want_rows.append((o_, w_, a_["u0.q"] or t_, w_, t_, o_, a_["ck"]))
+                prob = None if (d_["inputs"] == ["a", "b", "ck"] and d_["outputs"] == ["o", "p", "q"] and d_["free"] == ["a", "b", "ck", "u0.q", "u0.qn"] and d_["rows"] == want_rows) else \
+                    {"problem": "reference order does not denote the expected circuit", "inputs": d_["inputs"], "outputs": d_["outputs"], "free": d_["free"]}
+            else:
+                diff = [k for k in d_ if d_[k] != ref_desc[k]]
+                prob = None if not diff else {"problem": "the circuit depends on the order of the module items", "differs_in": diff, "got": {k: str(d_[k])[:120] for k in diff[:2]}, "declarations-first": {k: str(ref_desc[k])[:120] for k in diff[:2]}}
+        except ParseError as ex:
+            prob = {"error": str(ex)[:200]}
+        except (KeyError, ModelRaise) as ex:
+            prob = {"problem": "a declared net is missing from the circuit", "error": str(ex)[:120]}
+        except ValueError as ex:
+            prob = {"problem": "the circuit is not well formed (a single-input gate with several drivers, ...)", "error": str(ex)[:120]}
+        chk.ob("C02.O.item-order", f"order::{oname}", prob is None, file=FILE, func="_VerilogCircuitGraphTransformer", fact=prob or {"items": len(items)}, expect="the same circuit for every ordering of declarations, instances and assigns")
 
     # ---- C: through io.verilog_to_circuit (module extraction + any preprocessing), with comments -------------------
     com_cases = {
